@@ -282,8 +282,14 @@ pub struct Evidence {
 }
 
 pub fn write_evidence(ev: &Evidence) {
-    let _ = std::fs::create_dir_all("/verif/evidence");
-    let path = format!("/verif/evidence/{}.json", ev.property_id);
+    // VERIF_EVIDENCE_DIR: used by the mutant tools so that runs against a deliberately broken
+    // tree never overwrite the evidence of the real tree.
+    let dir = match std::env::var("VERIF_EVIDENCE_DIR") {
+        Ok(d) if !d.is_empty() => d,
+        _ => "/verif/evidence".to_string(),
+    };
+    let _ = std::fs::create_dir_all(&dir);
+    let path = format!("{dir}/{}.json", ev.property_id);
     std::fs::write(&path, serde_json::to_string_pretty(ev).unwrap()).expect("write evidence");
 }
 
